@@ -79,6 +79,9 @@ func doTx(ctx context.Context, s *xmpp.Session, kind, marker string) error {
 func runC10(rc *RC) {
 	ch := rc.Ch
 	opts := E2Opts{S2S: ch.Chance("workload", 1, 5), Plain: ch.Chance("workload", 1, 4), Chunk: ch.Chance("workload", 1, 2)}
+	if !opts.S2S && ch.Chance("workload", 1, 4) {
+		opts.WS = true
+	}
 	strat := rc.S.ConfigureStrategy()
 	e := rc.NewE2(opts)
 	if e == nil {
@@ -94,7 +97,7 @@ func runC10(rc *RC) {
 	useDeadline := ch.Chance("workload", 1, 3)
 	deadlineIn := time.Duration(ch.Range("workload", 1, 100)) * 100 * time.Millisecond
 	nPings := ch.Range("workload", 0, 3)
-	rc.Describe("strategy=%s s2s=%v plain=%v chunk=%v closers=%d senders=%d peer=%d@%v deadline=%v/%v pings=%d pause=%d", strat, opts.S2S, opts.Plain, opts.Chunk, nClosers, nSenders, peerProg, peerAt, useDeadline, deadlineIn, nPings, rc.S.PausePerm)
+	rc.Describe("ws=%v strategy=%s s2s=%v plain=%v chunk=%v closers=%d senders=%d peer=%d@%v deadline=%v/%v pings=%d pause=%d", opts.WS, strat, opts.S2S, opts.Plain, opts.Chunk, nClosers, nSenders, peerProg, peerAt, useDeadline, deadlineIn, nPings, rc.S.PausePerm)
 	rc.CaseKey = fmt.Sprint(nClosers, nSenders, peerProg, useDeadline, opts)
 
 	var calls []*txCall
@@ -178,7 +181,7 @@ func runC10(rc *RC) {
 		case 0:
 			return
 		case 1:
-			e.WaitWire("sutclose", closeTag)
+			e.WaitWire("sutclose", strings.TrimSuffix(e.CloseTag(), "/>"))
 		default:
 			if rest := peerAt - rc.S.Now(); rest > 0 {
 				simrt.Sleep(rest)
@@ -186,9 +189,13 @@ func runC10(rc *RC) {
 		}
 		switch peerProg {
 		case 1, 2:
-			e.PeerWrite(closeTag)
+			e.PeerWrite(e.CloseTag())
 		case 3:
-			e.PeerWrite(`<stream:error><host-gone xmlns='urn:ietf:params:xml:ns:xmpp-streams'/></stream:error>` + closeTag)
+			if e.WS {
+				e.PeerWrite(`<error xmlns="http://etherx.jabber.org/streams"><host-gone xmlns='urn:ietf:params:xml:ns:xmpp-streams'/></error>` + e.CloseTag())
+			} else {
+				e.PeerWrite(`<stream:error><host-gone xmlns='urn:ietf:params:xml:ns:xmpp-streams'/></stream:error>` + closeTag)
+			}
 		case 4:
 			e.PeerWrite(`<message id="boom"/>`)
 		}
@@ -203,7 +210,7 @@ func runC10(rc *RC) {
 
 	// ---- oracles (before teardown) ----
 	tap := e.SUT.Out().Tap
-	w := ParseWire(tap)
+	w := e.ParseOut()
 	anyClosed := e.ServeDone
 	firstCloseRet := -1
 	for _, c := range closes {
@@ -279,7 +286,7 @@ func runC10(rc *RC) {
 		}
 		okDeadline := deadlinePassedAtRet && e.ServeErr != nil
 		if !okPeer && !okDeadline {
-			rc.Failf("C10.c4", fmt.Sprintf("serve-result:peer%d:deadline=%v", peerProg, deadlineAt >= 0), "Serve returned %v at t=%v step %d; peer program %d acted at step %d (t=%v); deadline at %v", e.ServeErr, e.ServeRetTime, e.ServeRetStep, peerProg, peerActedStep, peerActedTime, deadlineAt)
+			rc.Failf("C10.c4", fmt.Sprintf("serve-result:peer%d:deadline=%v:ws=%v", peerProg, deadlineAt >= 0, opts.WS), "Serve returned %v at t=%v step %d; peer program %d acted at step %d (t=%v); deadline at %v", e.ServeErr, e.ServeRetTime, e.ServeRetStep, peerProg, peerActedStep, peerActedTime, deadlineAt)
 		}
 	} else {
 		// liveness: Serve must have returned if the peer closed / errored, or the deadline passed on a deadline-capable transport
